@@ -98,6 +98,9 @@ func genC16(seed uint64, run int, tier string) Scenario {
 	case "cli":
 		c := genC01(seed^0xc16, run, "quick").(*C01)
 		c.ReadSize = pick(r, 16, 64, 8192)
+		// this leg's operation timeout is a fixed 60 s, not C01's multiple of the read delay: C01's
+		// "echo after most of the timeout" would simply be a timeout here
+		c.SlowEchoAt, c.SlowEchoUS = 0, 0
 		// a real connection cuts anywhere, also inside escape sequences (outside C01's domain):
 		// the outputs of this leg carry none
 		for i := range c.Cmds {
@@ -515,7 +518,8 @@ func runC16(env *Env, s Scenario) {
 
 					return
 				}
-				if !strings.Contains(r.Result, "<ok/>") {
+				// (the server model refuses some requests: either answer is the one it sent)
+				if !strings.Contains(r.Result, "<ok/>") && !strings.Contains(r.Result, "<error-tag>operation-failed</error-tag>") {
 					opErr = fmt.Errorf("unexpected reply %q", r.Result)
 
 					return
@@ -562,7 +566,7 @@ func init() {
 			QuickRuns:   600,
 			ThoroughS:   300,
 			Legs: []Leg{
-				{Name: "D", QuickRuns: 600, Share: 0.75},
+				{Name: "D", QuickRuns: 3000, Share: 0.75},
 				{Name: "OS", Prop: "C16S", QuickRuns: 24, Share: 0.25, Workers: 4},
 			},
 		},
